@@ -193,7 +193,10 @@ Look == /\ UNCHANGED vars
 
 Meta == /\ IsRoot /\ UNCHANGED vars
         /\ Emit([act |-> "Universe", from |-> St, U |-> U, L |-> L, xl |-> xl, yl |-> yl,
-                 feature |-> [name |-> "a", bio |-> "gene", strand |-> strand, spans |-> fs],
+                 feature |-> [name |-> "a", bio |-> "gene", strand |-> strand, spans |-> fs,
+                              \* the order in which the spans are handed to db.add_feature: any order denotes the
+                              \* same feature ("this will be sorted", see Orders / Normalise in Annotation.tla)
+                              given |-> Reverse(fs)],
                  compl |-> Compl, gap |-> Gap])
 
 Next == \/ \E a \in 0..L, b \in 0..L : Slice(a, b)
